@@ -326,3 +326,153 @@ Proof.
   unfold check_no_write. rewrite forallb_forall. intros H q. apply run_frame. intros c Hin.
   specialize (H c Hin). now destruct c.
 Qed.
+
+(* ================= the relation with the summary files in either order ================= *)
+Lemma split_sum_app tr : tr = fst (split_sum tr) ++ snd (split_sum tr).
+Proof.
+  induction tr as [|c tr IH]; cbn; [reflexivity|].
+  destruct (is_sum_open c); [reflexivity|]. destruct (split_sum tr) as [a b]; cbn in *. now f_equal.
+Qed.
+
+Lemma is_md_sum c : is_md_open c = true -> is_sum_open c = true.
+Proof. destruct c; cbn; try discriminate. intros H. now rewrite H. Qed.
+
+(* a strict trace with well-formed writes is a relaxed one *)
+Lemma split_md_sum_pre tr : forallb (fun c => untouched c [md_name; cmd_name]) (fst (split_md tr)) = true ->
+  split_sum tr = split_md tr.
+Proof.
+  induction tr as [|c tr IH]; cbn; [reflexivity|]. destruct (is_md_open c) eqn:Hm.
+  - now rewrite (is_md_sum c Hm).
+  - destruct (split_md tr) as [a b] eqn:S. cbn [fst forallb]. intros H. apply andb_true_iff in H. destruct H as [Hc Ha].
+    assert (Hs : is_sum_open c = false).
+    { destruct c; cbn in *; try reflexivity. unfold untouched in Hc. cbn in Hc.
+      rewrite !andb_true_iff, !negb_true_iff in Hc. destruct Hc as [H1 [H2 _]]. now rewrite H1, H2. }
+    rewrite Hs. cbn [fst] in IH. now rewrite (IH Ha).
+Qed.
+
+Lemma untouched_weaken c qs qs' : (forall q, In q qs' -> In q qs) -> untouched c qs = true -> untouched c qs' = true.
+Proof. intros S H. apply untouched_spec. intros q Hq. apply (proj1 (untouched_spec c qs) H). now apply S. Qed.
+
+Theorem strict_is_sym refs tr : check_safe_trace refs tr = true -> wf_writes [] tr = true -> check_safe_trace_sym refs tr = true.
+Proof.
+  unfold check_safe_trace, check_safe_trace_sym. intros H W.
+  destruct (split_md tr) as [pre post] eqn:S. rewrite !andb_true_iff in H. destruct H as [[H1 H2] H3].
+  assert (E : split_sum tr = (pre, post)).
+  { rewrite <- S. apply split_md_sum_pre. rewrite S. cbn [fst]. rewrite forallb_forall in H1 |- *.
+    intros c Hc. apply (untouched_weaken c (md_name :: cmd_name :: refs)); [|now apply H1].
+    intros q [Hq|[Hq|[]]]; subst; [now left | right; now left]. }
+  rewrite E, H1, H2, H3, W. reflexivity.
+Qed.
+
+(* every call of a relaxed-safe trace leaves the referenced files alone *)
+Lemma sym_refs_untouched refs tr : safe_trace_sym refs tr -> forall c, In c tr -> untouched c refs = true.
+Proof.
+  unfold safe_trace_sym, check_safe_trace_sym. destruct (split_sum tr) as [pre post] eqn:S.
+  rewrite !andb_true_iff, !forallb_forall. intros [[[H1 _] H3] _] c Hc.
+  pose proof (split_sum_app tr) as A. rewrite S in A; cbn in A. rewrite A in Hc. apply in_app_or in Hc. destruct Hc as [Hc|Hc].
+  - apply (untouched_weaken c (md_name :: cmd_name :: refs)); [|now apply H1]. intros q Hq. right; right; exact Hq.
+  - specialize (H3 c Hc). now apply andb_true_iff in H3.
+Qed.
+
+(* a write on p inside a well-formed trace is preceded by a write-open of p *)
+Lemma wf_writes_open tr : forall opened a p d b, wf_writes opened tr = true -> tr = a ++ Write p d :: b ->
+  existsb (bytes_eqb p) opened = true \/ exists t, In (OpenW p t) a.
+Proof.
+  induction tr as [|c tr IH]; intros opened a p d b W E; [destruct a; discriminate|].
+  destruct a as [|x a].
+  - inversion E; subst. cbn in W. apply andb_true_iff in W. now left.
+  - inversion E; subst x tr. clear E.
+    assert (G : forall opened', wf_writes opened' (a ++ Write p d :: b) = true ->
+                (forall q, existsb (bytes_eqb q) opened' = true -> existsb (bytes_eqb q) opened = true \/ exists t, c = OpenW q t) ->
+                existsb (bytes_eqb p) opened = true \/ exists t, In (OpenW p t) (c :: a)).
+    { intros opened' W' Hsub. destruct (IH opened' a p d b W' eq_refl) as [H|[t H]].
+      - destruct (Hsub p H) as [H'|[t H']]; [now left | right; exists t; now left].
+      - right. exists t. now right. }
+    destruct c; cbn [wf_writes] in W; try (apply (G opened W); intros q Hq; now left).
+    + apply (G (p0 :: opened) W). intros q Hq. cbn in Hq. apply orb_true_iff in Hq. destruct Hq as [Hq|Hq]; [|now left].
+      right. exists trunc. f_equal. symmetry. now apply bytes_eqb_true.
+    + apply andb_true_iff in W. destruct W as [_ W]. apply (G opened W). intros q Hq. now left.
+Qed.
+
+(* before _metadata is write-opened no call of a relaxed-safe trace touches _metadata *)
+Lemma sym_md_untouched refs tr tr1 c tr2 : safe_trace_sym refs tr -> tr = tr1 ++ c :: tr2 ->
+  existsb is_md_open tr1 = false -> is_md_open c = false -> affects c md_name = false.
+Proof.
+  intros H E Hno Hc. unfold safe_trace_sym, check_safe_trace_sym in H. destruct (split_sum tr) as [pre post] eqn:S.
+  rewrite !andb_true_iff, !forallb_forall in H. destruct H as [[[H1 _] H3] W].
+  pose proof (split_sum_app tr) as A. rewrite S in A; cbn in A.
+  assert (Hin : In c tr) by (rewrite E; apply in_or_app; right; now left).
+  destruct c as [p|p t|p d|p|a b|p]; try reflexivity.
+  - (* OpenW p: not _metadata *) exact Hc.
+  - (* Write p d: the handle was opened in tr1, and that open was not one of _metadata *)
+    cbn. destruct (bytes_eqb p md_name) eqn:Ep; [|reflexivity]. exfalso.
+    destruct (wf_writes_open tr [] tr1 p d tr2 W E) as [F|[t F]]; [discriminate|].
+    apply bytes_eqb_true in Ep. subst p.
+    assert (X : existsb is_md_open tr1 = true).
+    { apply existsb_exists. exists (OpenW md_name t). split; [exact F | reflexivity]. }
+    congruence.
+  - (* Rename: in pre it is untouched, in post it is not post_ok *)
+    rewrite A in Hin. apply in_app_or in Hin. destruct Hin as [Hin|Hin].
+    + apply (proj1 (untouched_spec _ _) (H1 _ Hin)). now left.
+    + specialize (H3 _ Hin). apply andb_true_iff in H3. destruct H3 as [_ H3]. discriminate.
+  - rewrite A in Hin. apply in_app_or in Hin. destruct Hin as [Hin|Hin].
+    + apply (proj1 (untouched_spec _ _) (H1 _ Hin)). now left.
+    + specialize (H3 _ Hin). apply andb_true_iff in H3. destruct H3 as [_ H3]. discriminate.
+Qed.
+
+Lemma safe_sym_prefix refs tr a b : safe_trace_sym refs tr -> tr = a ++ b ->
+  existsb is_md_open a = false -> forall x, In x a -> affects x md_name = false.
+Proof.
+  intros H E Hno x Hx. apply in_split in Hx. destruct Hx as [u [v Huv]].
+  apply (sym_md_untouched refs tr u x (v ++ b) H).
+  - rewrite E, Huv, <- app_assoc. reflexivity.
+  - rewrite Huv in Hno. now apply existsb_app_false in Hno.
+  - rewrite Huv in Hno. apply existsb_app_false in Hno. destruct Hno as [_ Hv]. cbn in Hv. now apply orb_false_iff in Hv.
+Qed.
+
+Section ReadS.
+  Variable R : Type.
+  Variable parse_md : bytes -> option (list path).
+  Variable decode : bytes -> list (option bytes) -> R.
+
+  Theorem crash_safe_sym refs tr tr1 c tr2 s s' :
+    refs_of parse_md s = Some refs ->
+    safe_trace_sym refs tr -> tr = tr1 ++ c :: tr2 ->
+    existsb is_md_open tr1 = false -> (is_md_open c = false \/ s' = run_trace tr1 s) ->
+    crash_at tr1 c s s' ->
+    read_dataset R parse_md decode s' = read_dataset R parse_md decode s
+    /\ forall q, In q (md_name :: refs) -> FS.lookup q s' = FS.lookup q s.
+  Proof.
+    intros Hr H E Hno Hc P.
+    assert (U : forall x, In x tr -> forall q, In q refs -> affects x q = false).
+    { intros x Hx. apply untouched_spec. now apply (sym_refs_untouched refs tr H). }
+    assert (F1 : forall q, In q (md_name :: refs) -> FS.lookup q (run_trace tr1 s) = FS.lookup q s).
+    { intros q Hq. apply run_frame. intros x Hx. destruct Hq as [Hq|Hq].
+      - subst q. now apply (safe_sym_prefix refs tr tr1 (c :: tr2) H E Hno).
+      - apply U; [rewrite E; apply in_or_app; now left | exact Hq]. }
+    assert (F : forall q, In q (md_name :: refs) -> FS.lookup q s' = FS.lookup q s).
+    { intros q Hq. destruct Hc as [Hc|Hc]; [|subst s'; now apply F1].
+      rewrite <- (F1 q Hq). apply (partial_frame c); [exact P|]. destruct Hq as [Hq|Hq].
+      - subst q. now apply (sym_md_untouched refs tr tr1 c tr2 H E Hno Hc).
+      - apply U; [rewrite E; apply in_or_app; right; now left | exact Hq]. }
+    split; [|exact F]. now apply (read_dataset_same R parse_md decode s s' refs Hr).
+  Qed.
+End ReadS.
+
+Theorem sym_existing_untouched refs tr : safe_trace_sym refs tr ->
+  (forall s q, In q refs -> FS.lookup q (run_trace tr s) = FS.lookup q s)
+  /\ (forall p t, In (OpenW p t) tr -> ~ In p refs)
+  /\ (forall c, In c tr ->
+        match c with Rename a b => ~ In a refs /\ ~ In b refs | Remove p => ~ In p refs | _ => True end).
+Proof.
+  intros H.
+  assert (U : forall x, In x tr -> forall q, In q refs -> affects x q = false).
+  { intros x Hx. apply untouched_spec. now apply (sym_refs_untouched refs tr H). }
+  split; [|split].
+  - intros s q Hq. apply run_frame. intros x Hx. now apply U.
+  - intros p t Hin Hp. specialize (U _ Hin p Hp). cbn in U. now rewrite bytes_eqb_refl in U.
+  - intros c Hin. destruct c; try exact I.
+    + split; intros Hp; specialize (U _ Hin _ Hp); cbn in U; rewrite under_refl in U; cbn in U;
+        [discriminate | now rewrite orb_true_r in U].
+    + intros Hp. specialize (U _ Hin _ Hp). cbn in U. now rewrite under_refl in U.
+Qed.
